@@ -32,7 +32,7 @@ EXHAUSTIVE = {"quick": False, "thorough": False}
 def plan(tier, seed):
     if tier == "quick":
         return [{"trees": 260}]
-    return [{"trees": 2000, "salt": i} for i in range(16)]
+    return [{"trees": 2000, "salt": i} for i in range(16)] + [{"trees": 0, "repo_tests": True}]
 
 
 def operations(root, rng):
@@ -196,6 +196,10 @@ def needs_escaping(root):
 
 
 def run(ctx, params):
+    if params.get("repo_tests"):
+        from vlib import repotests
+        repotests.run(ctx, PROPERTY)
+        return
     gen = treegen.Gen()
     rng = ctx.rng
     xml_alph = [c for c in nodegen.ALPH if c not in ("\x00", "\x01", "\x1f", "\r")]
@@ -230,6 +234,12 @@ def run(ctx, params):
 
 
 def replay(ctx, witness):
+    if "repo_test" in witness:
+        from vlib import repotests
+        repotests.run(ctx, PROPERTY)
+        ctx.distinct(1)
+        ctx.distinct(2)
+        return
     t = snapshot.from_plain(Node, witness["tree"])
     judge(ctx, t, witness.get("origin", "replay"))
     ctx.distinct(1)
